@@ -49,7 +49,10 @@ def _nullctx():
     yield
 
 
-def run_concrete(case, inputs):
+LAST_SOFT = []
+
+
+def run_concrete(case, inputs, want_label=None):
     """Run the body on the unmodified stack. Returns (ok, label, detail)."""
     c = ConCtx(inputs)
     set_ctx(None)
@@ -57,6 +60,11 @@ def run_concrete(case, inputs):
         with warnings.catch_warnings():
             warnings.simplefilter('ignore')
             case.body(c, **case.params)
+        global LAST_SOFT
+        LAST_SOFT = list(dict.fromkeys(c.soft))
+        if c.soft:
+            label = want_label if want_label in c.soft else c.soft[0]
+            return False, label, 'soft check failed; all failing soft checks: ' + '; '.join(LAST_SOFT)
         return True, None, ''
     except ConcreteViolation as v:
         return False, v.label, v.detail
@@ -116,6 +124,18 @@ def explore(case, roots=((),), deadline=None, budget=None):
             res['errors'].append(f'{case.name}: {e}')
             continue
         stack.extend(c.forks)
+        # counterexamples of soft checks are replayed like any other, the path itself goes on
+        for ce in getattr(c, 'soft', []):
+            try:
+                ok, label, detail = run_concrete(case, ce.inputs, want_label=ce.label)
+                res['validated'] += 1
+                if ok:
+                    res['errors'].append(f'{case.name}: solver counterexample for {ce.label!r} does not reproduce on the real stack: '
+                                         f'{json.dumps(ce.inputs)[:300]}')
+                else:
+                    _add_violation(res, seen_viol, case, label, ce.inputs, detail, f'solver counterexample for {ce.label!r}')
+            except HarnessError as e:
+                res['errors'].append(f'{case.name}: {e}')
         if kind == 'abort':
             res['aborted'] += 1
             continue
@@ -128,8 +148,9 @@ def explore(case, roots=((),), deadline=None, budget=None):
                     ok, label, detail = run_concrete(case, w)
                     res['validated'] += 1
                     if not ok:
-                        _add_violation(res, seen_viol, case, label, w, detail,
-                                       'witness of a path the solver passed fails on the real stack')
+                        for lb in ([label] + [x for x in LAST_SOFT if x != label] if detail.startswith('soft check failed') else [label]):
+                            _add_violation(res, seen_viol, case, lb, w, detail,
+                                           'witness of a path the solver passed fails on the real stack')
                     if len(res['samples']) < 2:
                         res['samples'].append(dict(case=case.name, decisions=len(c.decisions),
                                                    witness=w, notes=c.notes))
